@@ -379,3 +379,97 @@ class ValuesSetter(FunctionContract):
 
 
 CONTRACTS += [ValuesSetter('container'), ValuesSetter('model')]
+
+
+# ---------------------------------------------------------------------------------------------------------------
+# __setattr__, attribute branch: what strict=True blocks and what it leaves alone
+# ---------------------------------------------------------------------------------------------------------------
+class SetAttrAttribute(FunctionContract):
+    """obj.<name> = value for a name that is not a variable: with strict=True a name that is neither a registered attribute nor 'strict'
+    itself is refused with AttributeError (naming the closest variable when there is one) and nothing is created; the strict switch and every
+    registered attribute stay assignable; without strict an unknown name is registered through add_attribute; no series is touched."""
+    qualname = 'fsic.core.containers.VectorContainer.__setattr__'
+    props = ('C09',)
+    required_covers = ('blocked', 'updated', 'created')
+
+    def scenarios(self):
+        return ['unknown-name', 'registered-attribute', 'strict-switch']
+
+    def setup(self, interp, scenario):
+        from pyvc.libspec import A
+        ctx = interp.ctx
+        e = {'scenario': scenario, 'added': [], 'closest_calls': 0, 'direct': []}
+        obj = make(interp, e, strict_symbolic=True)
+        e['strict'] = obj.fields['_strict'].e
+        if scenario == 'strict-switch':
+            name = z3.StringVal('strict')
+        else:
+            name = ctx.fresh('name', STR)
+            ctx.assume(name != z3.StringVal('strict'))
+        e['name'] = name
+        # the attribute branch does not depend on how many variables there are: two variables and five registered attributes, any name
+        variables, registered = ['X', 'Y'], ['_attributes', 'span', 'index', '_strict', 'note']
+        obj.fields['index'] = list(variables)
+        obj.fields['_attributes'] = list(registered)
+        e['index0'], e['attrs0'] = list(variables), list(registered)
+        ctx.assume(z3.And(*[name != z3.StringVal(v) for v in variables]))
+        is_attr = z3.Or(*[name == z3.StringVal(a) for a in registered])
+        if scenario == 'registered-attribute':
+            ctx.assume(is_attr)
+        elif scenario == 'unknown-name':
+            ctx.assume(z3.Not(is_attr))
+        e['is_attr'] = is_attr
+        e['value'] = object()
+        e['inputs'] = {'name': name, 'strict': e['strict']} if scenario != 'strict-switch' else {'strict': e['strict']}
+
+        def add_attribute(interp_, o, args, kwargs, node):
+            e['added'].append((args[0], args[1]))
+            return None
+
+        def closest(interp_, o, args, kwargs, node):
+            ctx.use(A('fsic.get_closest_match', 'get_closest_match returns a list of names and changes nothing'))
+            e['closest_calls'] += 1
+            return [] if ctx.choose(2, 'closest-match') == 0 else ['near']
+
+        def object_setattr(interp_, o, args, kwargs, node):
+            e['direct'].append((args[0], args[1]))
+            return None
+        interp.registry.set_calls({'fsic.core.containers.VectorContainer.add_attribute': add_attribute,
+                                   'fsic.core.containers.VectorContainer.get_closest_match': closest,
+                                   'builtins.object.__setattr__': object_setattr})
+        return Call([SStr(name) if scenario != 'strict-switch' else 'strict', e['value']], {}, self_obj=obj, entry=e)
+
+    def post(self, interp, scenario, call, out):
+        ctx = interp.ctx
+        e = call.entry
+        obj = e['obj']
+        name = e['name']
+        strict = e['strict']
+        ctx.prove(z3.And(obj.ndstore.data == e['data0'], z3.BoolVal(obj.fields['index'] == e['index0'] and obj.fields['_attributes'] == e['attrs0'])),
+                  'no_series_and_no_declaration_is_touched_by_an_attribute_assignment', 'frame')
+        if out.kind == 'raise':
+            ctx.cover('blocked')
+            cls = exc_class(out.exc)
+            ctx.prove(z3.And(z3.BoolVal(cls is AttributeError and scenario == 'unknown-name'), strict),
+                      'AttributeError_only_for_a_new_name_under_strict_(never_for_the_strict_switch_or_a_registered_attribute)', 'raises')
+            ctx.prove(z3.BoolVal(not e['added'] and not e['direct']), 'a_refused_assignment_creates_nothing', 'frame')
+            return
+        if scenario == 'unknown-name':
+            ctx.cover('created')
+            ctx.prove(z3.Not(strict), 'with_strict_no_assignment_creates_a_new_attribute', 'raises')
+            ok = len(e['added']) == 1 and not e['direct'] and V.is_sym(e['added'][0][0]) and e['added'][0][1] is e['value']
+            ctx.prove(z3.BoolVal(ok) if not ok else V.z3_of(e['added'][0][0]) == name, 'a_new_name_is_registered_through_add_attribute_once', 'ensures')
+        else:
+            ctx.cover('updated')
+            # the assignment reaches the object: through the plain attribute protocol (a new entry of the instance under that name), or - for
+            # the strict switch on an object that has not registered it yet - through add_attribute
+            stored = [(k, v) for k, v in obj.fields.items() if v is e['value']]
+            via_protocol = len(stored) == 1 and not e['added'] and (stored[0][0] == 'strict' if scenario == 'strict-switch' else
+                                                                   (V.is_sym(stored[0][0]) and z3.eq(V.z3_of(stored[0][0]), name)))
+            via_add = scenario == 'strict-switch' and len(e['added']) == 1 and e['added'][0][0] == 'strict' and e['added'][0][1] is e['value'] and not stored
+            via_direct = not e['added'] and len(e['direct']) == 1 and e['direct'][0][1] is e['value']
+            ctx.prove(z3.BoolVal(bool(via_protocol or via_add or via_direct)), 'an_existing_attribute_or_the_strict_switch_is_assigned_whatever_strict_says', 'ensures',
+                      note=f"added={len(e['added'])} direct={len(e['direct'])} stored={[str(k) for k, _ in stored]}")
+
+
+CONTRACTS.append(SetAttrAttribute())
